@@ -130,7 +130,7 @@ pub fn run(args: &Args, r: &mut Report) {
     let mut nonces: BTreeSet<String> = BTreeSet::new();
     let mut reused = 0u64;
     // ---- (a) direct builds
-    let n = args.budget(20_000, 400_000);
+    let n = args.budget(60_000, 400_000);
     for i in 0..n {
         if args.skip(i) {
             continue;
@@ -228,7 +228,7 @@ pub fn run(args: &Args, r: &mut Report) {
         }
     }
     // ---- (b) through the state machine
-    let nh = args.budget(1_000, 20_000);
+    let nh = args.budget(4_000, 20_000);
     for j in 0..nh {
         let i = 10_000_000 + j;
         if args.skip(i) {
